@@ -409,6 +409,11 @@ def _errors_total(comps):
 
 def execute(run, res):
     from icalsim import world as W
+    from icalsim import values as V
+    # the isolation oracle snapshots parsed trees; asking a zone that was built from a damaged VTIMEZONE for
+    # its utcoffset() may expand a hostile RRULE for hours (found by the thorough tier: the *harness* hung),
+    # so date-times are described by wall fields and zone label only
+    V.OFFSETS = False
     view = "default"
     for stepno, (c, op, a) in enumerate(run["trace"]):
         res.steps += 1
